@@ -141,6 +141,7 @@ pub proof fn lemma_row_layout(v: EventRecordV, tail: Seq<u8>)
 }
 
 /// a stream that holds the row of `v` at [p, q): what `read_row` makes of it
+#[verifier::spinoff_prover]
 pub proof fn lemma_event_row_at(b: Seq<u8>, p: int, q: int, v: EventRecordV)
     requires 0 <= p <= q <= b.len(), b.subrange(p, q) == enc_EventRecord(v), valid_EventRecord(v),
     ensures
